@@ -666,6 +666,38 @@ def _allowlist_cache_class(ctree, problems):
     return kind
 
 
+def _ctx_storage(problems):
+    """core/ag_ctx.py: where the conversion-status stack lives.  Recognised shape: a plain module-level `threading.local()`
+    instance whose `control_status` attribute is created lazily PER THREAD by `_control_ctx`; `control_status_ctx()` reads the
+    top of the calling thread's stack; ControlStatusCtx pushes on enter and pops on exit."""
+    tree = ast.parse(_read('malt/core/ag_ctx.py'))
+    ok_local = any(isinstance(n, ast.Assign) and ast.unparse(n) == 'stacks = threading.local()' for n in tree.body)
+    cc = _func(tree, '_control_ctx')
+    ok_lazy = cc is not None and [ast.unparse(x) for x in _strip_doc(cc.body)] == [
+        "if not hasattr(stacks, 'control_status'):\n    stacks.control_status = [_default_control_status_ctx()]",
+        'return stacks.control_status']
+    cur = _func(tree, 'control_status_ctx')
+    ok_top = cur is not None and [ast.unparse(x) for x in _strip_doc(cur.body)] == ['ret = _control_ctx()[-1]', 'return ret']
+    dflt = _func(tree, '_default_control_status_ctx')
+    ok_default = dflt is not None and [ast.unparse(x) for x in _strip_doc(dflt.body)] == ['return ControlStatusCtx(status=Status.UNSPECIFIED)']
+    c = _cls(tree, 'ControlStatusCtx')
+    ok_push = ok_pop = False
+    if c is not None:
+        for st in c.body:
+            if isinstance(st, ast.FunctionDef) and st.name == '__enter__':
+                ok_push = [ast.unparse(x) for x in st.body] == ['_control_ctx().append(self)', 'return self']
+            if isinstance(st, ast.FunctionDef) and st.name == '__exit__':
+                ok_pop = [ast.unparse(x) for x in st.body] == ['assert _control_ctx()[-1] is self', '_control_ctx().pop()']
+    for ok, what in ((ok_local, '`stacks` is not a plain module-level threading.local() instance'),
+                     (ok_lazy, '_control_ctx does not create the stack lazily per thread'),
+                     (ok_top, 'control_status_ctx does not read the top of the stack'),
+                     (ok_default, 'the default context is not UNSPECIFIED'),
+                     (ok_push and ok_pop, 'ControlStatusCtx.__enter__/__exit__ are not push/pop')):
+        if not ok:
+            problems.append('ag_ctx: ' + what)
+    return ('threadLocalLazy' if (ok_local and ok_lazy and ok_top and ok_push and ok_pop) else 'unresolved'), ok_default
+
+
 def _strict(tree, problems):
     fn = _func(tree, 'is_autograph_strict_conversion_mode')
     want = "return int(os.environ.get('AUTOGRAPH_STRICT_CONVERSION', '0')) > 0"
@@ -704,6 +736,7 @@ def gen_policy(problems):
     artifact_ok = _artifact(atree, problems)
     key_drops_receiver = _cache_key(problems)
     cache_class = _allowlist_cache_class(ctree, problems)
+    ctx_storage, ctx_default_unspecified = _ctx_storage(problems)
 
     # the rule kind an entry of CONVERSION_RULES *acts as* (class -> action returned by get_action)
     def acts_as(kind):
@@ -859,6 +892,13 @@ def gen_policy(problems):
     A('  | unboundInstance | codeObject | unresolved')
     A('  deriving DecidableEq, Repr')
     A('def allowlistCacheKind : CacheKind := .%s' % cache_class)
+    A('/-- Where `ag_ctx` keeps the conversion-status stack: a plain `threading.local()` instance whose stack is created lazily')
+    A('per thread (each thread has its own stack, starting with the default context), or something not recognised. -/')
+    A('inductive CtxStorage where')
+    A('  | threadLocalLazy | unresolved')
+    A('  deriving DecidableEq, Repr')
+    A('def ctxStorage : CtxStorage := .%s' % ctx_storage)
+    A('def ctxDefaultIsUnspecified : Bool := %s' % _b(ctx_default_unspecified))
     A('')
     A('end Malt.Gen.Policy')
     return '\n'.join(L) + '\n'
